@@ -1257,6 +1257,14 @@ impl Vm {
             let err = error!(ErrorKind::RuntimeError, "Superclass must be a class.");
             return self.try_handle_error(err);
         };
+        if self.class_store.is_native_class(superclass) {
+            let err = error!(
+                ErrorKind::TypeError,
+                "Cannot derive from built-in class '{}'.",
+                *superclass.name
+            );
+            return self.try_handle_error(err);
+        }
         self.working_class_def.as_mut().unwrap().class.superclass = Some(superclass);
         for (name, method) in &superclass.methods {
             self.working_class_def
